@@ -25,8 +25,9 @@ ASSUMPTIONS = [
     "interleaving granularity is the store API call: SQLite admits one writer at a time, so statements of two store_stage "
     "calls cannot interleave between the first UPDATE and the commit (trusted: SQLite locking)",
     "retrieve_stage is treated as one atomic read (its two SELECTs are not interleaved with a writer)",
-    "a ConcurrencyError raised by the auto-commit store_stage leaves a write transaction open on that connection; the "
-    "harness commits it at once (this is what that connection's next commit would do)",
+    "if a store_stage call that raised ConcurrencyError leaves a write transaction open on its connection (it did before the "
+    "F33 repair) the harness commits it at once — what that connection's next commit would do — and the monitor "
+    "`failed-write-changed-row` checks that the durable rows did not change",
 ]
 TRUSTED_BASE = [
     "hand-written model lean/Stab/Model/CasRow.lean of store_stage (store and transaction) and upsert_task, tied to the code by "
